@@ -271,6 +271,7 @@ def run(ctx, idx):
         ctx.ob("C10.f", con, rel, dec[0].lineno, guarded, "UnicodeDecodeError is converted to SyntaxError" if guarded else
                "a malformed escape (`\"\\x\"`, a trailing backslash before the quote) raises UnicodeDecodeError out of the lexer instead of a syntax error")
     # ------------------------------------------------------------------ g
+    error_callbacks_total(ctx, idx, "C10.g", L)
     for nm, fn in (("t_error", L.t_error), ("p_error", L.p_error)):
         con = "%s::%s::raises-syntax-error" % (rel, nm)
         if fn is None:
@@ -283,3 +284,41 @@ def run(ctx, idx):
         other = [n for n in cfg.find("raise") if n not in rz]
         ok = not ends_normally and rz and not other
         ctx.ob("C10.g", con, rel, fn.lineno, ok, "raises SyntaxError on every path" if ok else "%s can return normally or raise something else: malformed text is skipped or misreported" % nm)
+
+
+def error_callbacks_total(ctx, idx, rule, L):
+    """p_error receives tokens whose value may be a converted number: only formatting/printing is total on it"""
+    fn = L.p_error
+    if fn is None:
+        return
+    parg = fn.args.args[-1].arg
+    parents = {}
+    for n in ast.walk(fn):
+        for c in ast.iter_child_nodes(n):
+            parents[id(c)] = n
+    probs = []
+    for n in ast.walk(fn):
+        if isinstance(n, ast.Attribute) and n.attr == "value" and isinstance(n.value, ast.Name) and n.value.id == parg:
+            par = parents.get(id(n))
+            ok = False
+            if isinstance(par, ast.Call) and n in par.args:
+                f = par.func
+                if isinstance(f, ast.Attribute) and f.attr == "format":
+                    ok = True
+                if isinstance(f, ast.Name) and f.id in ("str", "repr", "print", "format", "type", "isinstance"):
+                    ok = True
+            if isinstance(par, ast.FormattedValue) or isinstance(par, ast.keyword):
+                ok = True
+            if isinstance(par, ast.BinOp) and isinstance(par.op, ast.Mod) and par.right is n:
+                ok = True
+            if isinstance(par, ast.Tuple):
+                gp = parents.get(id(par))
+                if isinstance(gp, ast.BinOp) and isinstance(gp.op, ast.Mod):
+                    ok = True
+            if not ok:
+                probs.append((n.lineno, "`%s`: the unexpected token may be an INT or FLOAT whose value is a number, so this raises TypeError inside the error handler and malformed text is no longer reported as a syntax error" % K.src(par)[:70]))
+    con = "%s::p_error::token-value-use" % L.mod.rel
+    if probs:
+        ctx.violate(rule, con, L.mod.rel, probs[0][0], probs[0][1])
+    else:
+        ctx.hold(rule, con, L.mod.rel, fn.lineno, "the token value is only formatted")
